@@ -937,4 +937,30 @@ theorem quantiles_sorted_len (fuel : Nat) (idxs : List Nat) (ws : List Float) (n
 
 end Hilbert
 
+/-! ## array-backed variants used by the driver are the same functions -/
+
+theorem bsearchA_eq (s : Array Nat) (key : Nat) : bsearchA s key = bsearch s.toList key := by
+  simp [bsearchA, bsearch, Array.getD_eq_getD_getElem?, List.getD_eq_getElem?_getD]
+
+theorem partitionIndexedA_eq (idxs positions : List Nat) :
+    Hilbert.partitionIndexedA idxs positions = Hilbert.partitionIndexed idxs positions := by
+  simp [Hilbert.partitionIndexedA, Hilbert.partitionIndexed, Hilbert.assign, bsearchA_eq]
+
+theorem ZCurve.writeIdsA_toList (n k : Nat) (perm : List Nat) (p0 : Array Nat) :
+    (ZCurve.writeIdsA n k perm p0).toList = ZCurve.writeIds n k perm p0.toList := by
+  unfold ZCurve.writeIdsA ZCurve.writeIds
+  generalize perm.zipIdx = l
+  induction l generalizing p0 with
+  | nil => rfl
+  | cons x xs ih => simp only [List.foldl_cons]; rw [ih]; simp
+
+/-- The merge sort by key of the driver is an admissible `par_sort_unstable_by_key`. -/
+theorem ZCurve.mergeByKey_spec : ZCurve.SortSpec ZCurve.mergeByKey := by
+  intro key l
+  refine ⟨List.mergeSort_perm l _, ?_⟩
+  have := List.pairwise_mergeSort (le := fun a b => decide (key a ≤ key b))
+    (fun a b c hab hbc => by simp only [decide_eq_true_eq] at *; omega)
+    (fun a b => by simp only [Bool.or_eq_true, decide_eq_true_eq]; omega) l
+  exact this.imp (fun h => by simpa using h)
+
 end Coupe.Sfc
